@@ -17,11 +17,18 @@ def std_run(ctx, spec):
     jobs = [j for j in spec["jobs"](ctx.tier) if not getattr(ctx, "only", None) or re.search(ctx.only, j.get("label", j["pattern"]))]
     bins = D.compile_all(ctx, [dict(name=j["harness"], flags=j.get("flags", ()), sanitize=j.get("sanitize", False)) for j in jobs])
     binaries = {}
-    for j in jobs:
-        b = bins[(j["harness"], tuple(j.get("flags", ())), bool(j.get("sanitize", False)))]
-        binaries[os.path.basename(b)] = b
-        D.run_symx(ctx, b, j["pattern"], workers=j.get("workers", D.NCPU), deadline=j.get("deadline"), profile=j.get("profile"),
-                   cap=j.get("cap"), max_paths=j.get("max_paths"), label=j.get("label"), env=j.get("env"))
+    import concurrent.futures as cf
+    # jobs run concurrently (solver processes dominate; the 16 cores are shared by the workers of all jobs)
+    with cf.ThreadPoolExecutor(max_workers=max(1, len(jobs))) as ex:
+        futs = []
+        for j in jobs:
+            b = bins[(j["harness"], tuple(j.get("flags", ())), bool(j.get("sanitize", False)))]
+            binaries[os.path.basename(b)] = b
+            w = j.get("workers", D.NCPU if len(jobs) == 1 else max(6, D.NCPU // 2))
+            futs.append(ex.submit(D.run_symx, ctx, b, j["pattern"], workers=w, deadline=j.get("deadline"), profile=j.get("profile"),
+                                  cap=j.get("cap"), max_paths=j.get("max_paths"), label=j.get("label"), env=j.get("env")))
+        for f in futs:
+            f.result()
     D.collect(ctx, spec.get("policy", {}))
     post = spec.get("post")
     if post:
@@ -433,4 +440,36 @@ SPECS["C03"] = dict(
     technique="symbolic execution of the real generalized-mode operators, back-transformations and B-inner-product Lanczos step on symbolic pencils; z3 proves each identity",
     level_text="bounded symbolic verification in exact arithmetic of every building block of the generalized solvers at pencil size 2 (3 thorough); composition with C01/C07 argued, not executed",
     level_note="compositional; n<=3; exact arithmetic",
+)
+
+
+# ------------------------------------------------------------------------------------------------
+# C09: small dense eigen-decompositions
+def c09_jobs(tier):
+    d = 280 if tier == "quick" else 900
+    return [dict(harness="c09_eig", pattern=r"^schur/n2/general|^zero-matrix/", label="Schur 2x2, zero matrices", deadline=d),
+            dict(harness="c09_eig", pattern=r"^schur/n2/defective", label="Schur 2x2 with zero discriminant", deadline=d),
+            dict(harness="c09_eig", pattern=r"^trideig/n2", label="tridiagonal 2x2", deadline=d)]
+
+
+SPECS["C09"] = dict(
+    run=std_run, jobs=c09_jobs, post=reg_post([("c13_nullspace_start.cpp", ())]),
+    explanation=("Only the part of this property that a bounded exact-arithmetic encoding can reach is claimed: the real UpperHessenbergSchur (compute, find_small_subdiag, split_off_two_rows with Eigen's "
+                 "JacobiRotation) on every 2x2 matrix whose sub-diagonal is clearly not negligible - z3 proves U'U = I, U T U' = H entry-wise, and that a non-zero T(1,0) is left only for a complex pair "
+                 "(negative discriminant), including the zero-discriminant (repeated / defective eigenvalue) case that the eigenvalue extraction and the restart logic of the general solver rely on; the real "
+                 "TridiagEigen on every unreduced symmetric 2x2 matrix (one implicit QR step deflates exactly): Z'Z = I, T Z = Z diag(d), only the lower part is read; the zero-matrix exits of TridiagEigen, "
+                 "UpperHessenbergEigen and UpperHessenbergSchur for n = 2..4 (eigenvalues 0, unit vectors, no NaN - the UpperHessenbergEigen exit is the repair of a defect found here). The concrete replay "
+                 "driver of that defect (general solver on the zero matrix) is re-run."),
+    functions=["UpperHessenbergSchur<S>::compute, find_small_subdiag, split_off_two_rows, upper_hessenberg_l1_norm", "TridiagEigen<S>::compute, tridiagonal_qr_step", "UpperHessenbergEigen<S>::compute (zero-matrix exit), eigenvectors"],
+    bounds={"quick": {"n": 2, "zero matrices": "n = 2,3,4"}, "thorough": {"n": 2, "zero matrices": "n = 2,3,4"}},
+    outside=["the QR / Francis iterations for n >= 3 (they do not terminate in closed form in exact arithmetic): convergence, backward stability and the iteration cap are NOT covered - this is the bulk of the property",
+             "UpperHessenbergEigen's eigenvalue extraction and back-substitution on symbolic input (harness cases exist; the nested radicals leave them undecided within the solver caps)",
+             "matrices with negligible sub-diagonals or entries graded over more than 3 orders of magnitude (deflation thresholds make the result exact only to eps level)", ROUNDING],
+    assumptions=["exact real arithmetic", "sub-diagonal > 1e-6*(|d0|+|d1|) + 1e-100 and all entries <= 1000*|sub-diagonal| (no threshold path)",
+                 "TridiagEigen 2x2: after the first implicit QR step the sub-diagonal is exactly 0; the solver cannot always refute the 'not yet deflated' branch, those continuation paths are cut at 12 "
+                 "decisions and reported as truncated (claim: no wrong result on any completed path)"],
+    policy=dict(events="violation", allow_cut=lambda case: case.startswith("trideig/")),
+    technique="symbolic execution of the real 2x2 Schur / tridiagonal eigen code on symbolic matrices; z3 proves the decomposition identities entry-wise",
+    level_text="bounded symbolic verification at n = 2 only, plus the zero-matrix exits; the iterative part of the property (n >= 3) is explicitly not claimed",
+    level_note="n=2; exact arithmetic; domain restricted away from deflation thresholds",
 )
